@@ -102,8 +102,8 @@ def bound_diff_op(k, f):
     return attrs[0], None
 
 
-def rule_r3(rep, program):
-    r = rep.rule("R3", "auxiliary outputs name memoised methods of the class, in the order of the bound differential operator's return convention", floor=10)
+def rule_r3(rep, program, prop=PROP, rule="R3"):
+    r = rep.rule(rule, "auxiliary outputs name memoised methods of the class, in the order of the bound differential operator's return convention", floor=10)
     seen = set()
     for k, n, f in c09.cached_pairs(program):
         if not f.cache_aux:
@@ -118,7 +118,7 @@ def rule_r3(rep, program):
             r.inst({"class": k.name, "primary": f.qualname, "aux": aux, "op": op})
             if g is None or g.cache_deps is None:
                 if key not in {x.key for x in r.findings}:
-                    r.violate(PROP, key, f"auxiliary output '{aux}' of {f.qualname} is not a memoised method of {k.name}: the value returned alongside the derivative is never reused", node=f.node, file=f.file)
+                    r.violate(prop, key, f"auxiliary output '{aux}' of {f.qualname} is not a memoised method of {k.name}: the value returned alongside the derivative is never reused", node=f.node, file=f.file)
         if op is None:
             continue
         comps = split_diff_op(op)
@@ -126,7 +126,7 @@ def rule_r3(rep, program):
         if len(comps) != len(names):
             key = f"{f.qualname}:op={op}:aux={list(f.cache_aux)}"
             if key not in {x.key for x in r.findings}:
-                r.violate(PROP, key, f"{op} returns {len(comps)} values ({comps}) but the method declares {len(names)} outputs ({names})", node=f.node, file=f.file)
+                r.violate(prop, key, f"{op} returns {len(comps)} values ({comps}) but the method declares {len(names)} outputs ({names})", node=f.node, file=f.file)
             continue
         # the undifferentiated function name: primary name minus its prefix
         pref = DIFF_PREFIX.get(comps[0])
@@ -139,7 +139,7 @@ def rule_r3(rep, program):
             if nm != want:
                 key = f"{f.qualname}:op={op}:slot={comp}:got={nm}"
                 if key not in {x.key for x in r.findings}:
-                    r.violate(PROP, key, f"return convention of {op} puts the {comp} in this slot (expected method '{want}') but the declaration caches it as '{nm}': the wrong quantity is cached under that name", node=f.node, file=f.file)
+                    r.violate(prop, key, f"return convention of {op} puts the {comp} in this slot (expected method '{want}') but the declaration caches it as '{nm}': the wrong quantity is cached under that name", node=f.node, file=f.file)
     return r
 
 
